@@ -149,11 +149,13 @@ def validate(ctx, pid, scenarios, tag, shards=12):
 # clauses listed here are X's too (in the shared common pool only X.* clauses are).
 CROSS = {
     "C02": {"C05.legal_frame_rejected", "C17.undocumented_exception", "C02.returned_without_a_complete_frame",
+            "C03.bytes_consumed_outside_the_calls",
             "C04.reassembled_message_differs", "C03.outcome_delayed_by_read", "C03.spurious_exception"},
     "C03": set(),      # judged by the group rule below: the same stream must behave the same under every cutting
     "C04": {"C06.well_formed_text_rejected", "C05.legal_frame_rejected", "C02.decoded_result_differs", "C17.undocumented_exception",
             "C02.returned_without_a_complete_frame", "C03.spurious_exception", "C06.ill_formed_text_delivered"},
-    "C05": {"C06.well_formed_text_rejected", "C06.ill_formed_text_delivered", "C17.undocumented_exception"},
+    "C05": {"C06.well_formed_text_rejected", "C06.ill_formed_text_delivered", "C17.undocumented_exception",
+            "C06.ill_formed_close_reason_accepted"},
     "C06": {"C17.undocumented_exception", "C05.legal_frame_rejected"},
     "C07": {"C05.legal_frame_rejected", "C17.undocumented_exception", "C01.reply_frame_malformed", "C01.reply_not_one_whole_frame",
             "C03.outcome_delayed_by_read"},
@@ -218,7 +220,7 @@ class Fam:
         self.out = []
 
     def add(self, stream, calls, cuts=(), timeouts=(), end="eof", fireCont=False, skipUtf8=False,
-            max_calls=None, via_connect=False):
+            max_calls=None, via_connect=False, nonblocking=False):
         self.n += 1
         # configuration beyond the receive properties' own flags: trace logging on (every received frame is
         # re-formatted for the log) and the lock-free single-thread configuration - neither may change a result
@@ -227,7 +229,7 @@ class Fam:
         self.out.append(dict(tid="%s%d" % (self.prefix, self.n), stream=bytes(stream), calls=[list(c) for c in calls],
                              cuts=cuts if cuts == "every" else sorted(cuts), timeouts=sorted(timeouts), end=end,
                              fireCont=fireCont, skipUtf8=skipUtf8,
-                             max_calls=max_calls or (nfr + len(timeouts) + 4), via_connect=via_connect, **extra))
+                             max_calls=max_calls or (nfr + len(timeouts) + 4), via_connect=via_connect, nonblocking=nonblocking, **extra))
 
 
 def wire_frames_guess(stream):
@@ -281,7 +283,7 @@ def fam_decode(rng, tier):
         mode = rng.randrange(3)
         cuts = () if mode == 0 else "every" if (mode == 1 and len(stream) < 80) else header_boundaries(frames)
         api = rng.choice([["recv_frame", False]] * 3 + [["recv_data_frame", True]])
-        f.add(stream, [api], cuts=cuts, max_calls=k + 3)
+        f.add(stream, [api], cuts=cuts, max_calls=k + 3, via_connect=(i % 9 == 0))
     # extended length forms and non-minimal encodings
     ext = [(126, None), (127, None), (300, None), (65535, None), (5, 2), (125, 2), (0, 2), (5, 8), (300, 8), (0, 8)]
     big = [(65536, None), (65537, None), (70000, None)]
@@ -353,6 +355,21 @@ def fam_fragments(rng, tier, apis=None):
                             api = rng.choice(apis)
                             cuts = rng.choice([(), "every", header_boundaries(seq + [second])])
                             f.add(stream, [api], cuts=cuts, fireCont=fire, skipUtf8=skip, max_calls=len(seq) + 4)
+    # very many control frames between two fragments, very many (empty) fragments: "any number"
+    pongs = wire.sframe(PO, b"") * 1200
+    f.add(wire.sframe(T, b"he", 0) + pongs + wire.sframe(C, b"llo", 1) + wire.sframe(B, b"x"), [["recv_data", False]], max_calls=4)
+    pings = b"".join(wire.sframe(PI, bytes([i % 251])) for i in range(300))
+    f.add(wire.sframe(B, b"\x01", 0) + pings + wire.sframe(C, b"\x02", 1), [["recv", False]], max_calls=4)
+    f.add(wire.sframe(T, b"a", 0) + wire.sframe(C, b"", 0) * 1100 + wire.sframe(C, b"b", 1), [["recv_data_frame", False]], max_calls=3)
+    # a receive timeout between (and inside) the fragments of a message: the retried call finishes the same message
+    for parts in ([b"ab", b"cd"], [b"a", b"", b"b"], ["é".encode()[:1], "é".encode()[1:]]):
+        for op in (T, B):
+            seq = [wire.sframe(op if i == 0 else C, p, fin=1 if i == len(parts) - 1 else 0) for i, p in enumerate(parts)]
+            stream = b"".join(seq) + wire.sframe(T, b"next")
+            bounds = [sum(len(x) for x in seq[:i + 1]) for i in range(len(seq))]
+            for p in sorted(set(bounds + [b + 1 for b in bounds[:-1]] + [1])):
+                for fire in (False, True):
+                    f.add(stream, [rng.choice(apis)], cuts=header_boundaries(seq), timeouts=[p], fireCont=fire, max_calls=len(seq) + 4)
     # longer messages, many fragments (thorough: up to 64 fragments)
     for _ in range(40 if tier == "quick" else 400):
         nfr = rng.randrange(2, 9 if tier == "quick" else 65)
@@ -446,6 +463,10 @@ def fam_utf8(rng, tier):
             for skip, fire in ((False, False), (True, False), (False, True)):
                 for api in (MSG_APIS if tier == "thorough" else [rng.choice(MSG_APIS)]):
                     f.add(b"".join(seq) + wire.sframe(B, b"\xff"), [api], skipUtf8=skip, fireCont=fire, max_calls=len(seq) + 3)
+        # a close reason of the maximal length (123 bytes) that ends with these bytes
+        if 0 < len(txt) <= 8:
+            for skip in (False, True):
+                f.add(wire.sframe(CL, b"\x03\xe8" + b"r" * (123 - len(txt)) + txt), [rng.choice(ALL_APIS)], skipUtf8=skip, max_calls=2)
         # the same bytes as a binary message are never validated
         f.add(wire.sframe(B, txt), [rng.choice(MSG_APIS)], max_calls=2)
         # and as a close reason
@@ -526,6 +547,14 @@ def fam_segmentation(rng, tier):
             for p, q in pairs:
                 f.add(stream, [api], cuts=rng.choice([(), "every"]), timeouts=[p, q], end="eof", max_calls=len(frames) + 5,
                       via_connect=rng.random() < 0.1)
+    # non-blocking transport (settimeout(0)): "would block" at every byte position, the caller retries
+    for frames in shorts[:5]:
+        stream = b"".join(frames)
+        L = len(stream)
+        for api in (MSG_APIS[0], MSG_APIS[3]):
+            for p in range(L + 1):
+                f.add(stream, [api], cuts="every", timeouts=[p], end="timeout", max_calls=len(frames) + 4, nonblocking=True)
+            f.add(stream, [api], cuts="every", timeouts=list(range(L + 1)), end="timeout", max_calls=len(frames) + L + 5, nonblocking=True)
     # frames with extended length forms: a timeout at every position of the first bytes (header, extended length,
     # key), and cuts everywhere around them
     for n, masked in ((126, None), (300, b"\x01\x02\x03\x04"), (65536, None), (200, None)):
@@ -655,6 +684,11 @@ def run_for(ctx, pid, with_mc=True):
         judge(ctx, pid, rejected, focused=(tag != "common_pool"))
         if pid == "C03" and tag != "common_pool":
             group_rule(ctx, scs, rejected)
+    if pid == "C03":
+        from . import app_common
+        app_common.run_extra(ctx, "C03", app_common.fam_app_bursts, "app_bursts",
+                             cross={"C13.delivered_late (waited for further traffic)", "C13.events_out_of_order_or_skipped",
+                                    "C13.event_never_delivered_although_connection_stayed_up", "C13.delivered_content_differs"})
     negative_controls(ctx, pid)
 
 
